@@ -1971,6 +1971,10 @@ func RunFrame(frame *py.Frame) (res py.Object, err error) {
 	if vm.why != whyReturn {
 		vm.retval = nil
 	}
+	// The frame is finished (it returned or raised) so it hasn't
+	// yielded, whatever an earlier yield left in the flag, eg a yield
+	// in a finally block with a return pending
+	frame.Yielded = false
 	if vm.retval == nil && !vm.curexc.IsSet() {
 		panic("vm: no result or exception")
 	}
